@@ -443,14 +443,19 @@ def r36(ctx):
         n = cfg.node_of(s)
         t = s.targets[0]
         if not isinstance(t.value, ast.Subscript):
-            # claimed through an alias of the list: the loop below must enumerate that same alias
+            # claimed through an alias of the list: the loop below must enumerate that same alias;
+            # the key is the one the alias was taken with (`lst = engine_occ[key]`)
             key, idx = None, ast.unparse(t.slice)
+            if isinstance(t.value, ast.Name):
+                for d_, _s in fl.rd(t.value.id, n):
+                    if d_.kind == "assign" and isinstance(d_.value, ast.Subscript) and path_of(d_.value.value) == occ:
+                        key = ast.unparse(d_.value.slice)
         else:
             key, idx = ast.unparse(t.value.slice), ast.unparse(t.slice)
         # loop providing (idx, occupied_by) over engine_occ[key]
         ok = False
         for l in loops_of(s):
-            if isinstance(l, ast.For) and isinstance(l.iter, ast.Call) and dotted(l.iter.func) == "enumerate" and l.iter.args and ast.unparse(l.iter.args[0]) == (f"{occ}[{key}]" if key is not None else ast.unparse(t.value)):
+            if isinstance(l, ast.For) and isinstance(l.iter, ast.Call) and dotted(l.iter.func) == "enumerate" and l.iter.args and ast.unparse(l.iter.args[0]) in ((f"{occ}[{key}]", ast.unparse(t.value)) if key is not None else (ast.unparse(t.value),)):
                 if isinstance(l.target, ast.Tuple) and len(l.target.elts) == 2 and ast.unparse(l.target.elts[0]) == idx:
                     occvar = ast.unparse(l.target.elts[1])
                     for e, truth, bn in cfg.guards(n):
